@@ -60,17 +60,25 @@ func ontQuorumTemplate(c *core.Ctx, prop string, fn *ssa.Function, isKeys func(s
 	lenPeers := eng.IsLenOf(isPeerMap)
 	count := eng.NamedGuard{Name: "3·len(keys) >= len(PeerMap)", G: func(cd ir.Cond) (bool, bool) {
 		b, ok := cd.V.(*ssa.BinOp)
-		if !ok || (b.Op != token.LSS && b.Op != token.GEQ) || !lenPeers(b.Y) {
+		if !ok {
 			return false, false
 		}
-		e, err := eng.ExtractExpr(b.X, lenKeys)
+		// 3·len(keys) OP len(PeerMap), in either operand order
+		x, y, op := b.X, b.Y, b.Op
+		if lenPeers(ir.Resolve(b.X)) && !lenPeers(ir.Resolve(b.Y)) {
+			x, y, op = b.Y, b.X, relMirror(b.Op)
+		}
+		if (op != token.LSS && op != token.GEQ) || !lenPeers(ir.Resolve(y)) {
+			return false, false
+		}
+		e, err := eng.ExtractExpr(x, func(v ssa.Value) bool { return lenKeys(ir.Resolve(v)) })
 		if err != nil {
 			return false, false
 		}
 		if ok, _ := eng.EqualForAll(e, eng.Mul(eng.N(), eng.K(3)), 0); !ok {
 			return false, false
 		}
-		return true, b.Op == token.GEQ
+		return true, op == token.GEQ
 	}}
 	eng.Dominates(c, prop+".count", fn, count, succ, "nil return", nil)
 	// distinct-member loop over the same keys (in fn or in a helper handed the keys)
